@@ -35,9 +35,10 @@ FORMS = {
     'laplace': ('inner(grad(u),grad(v))*dx', True),
     'conv': ('inner(b,grad(u))*v*dx', False),
     'fun': ('f*v*dx', None),
+    'fun2': ('f*f*v*dx', None),      # same inputs as `fun`, different integrand
 }
-QUICK_FORMS = {1: ['laplace', 'fun'], 2: ['mass', 'conv']}   # every form once; 4 on-demand assemblers to compile
-ALL_FORMS = {1: ['mass', 'laplace', 'conv', 'fun'], 2: ['mass', 'laplace', 'conv', 'fun']}
+QUICK_FORMS = {1: ['laplace', 'fun', 'fun2'], 2: ['mass', 'conv', 'fun', 'fun2']}   # 7 on-demand assemblers (cached per digest)
+ALL_FORMS = {1: ['mass', 'laplace', 'conv', 'fun', 'fun2'], 2: ['mass', 'laplace', 'conv', 'fun', 'fun2']}
 
 
 def make_args(dim, affine=True):
@@ -196,7 +197,10 @@ def run(ctx):
                         'values: exact Rat on the implementation\'s doubles, bound 64 eps (L+2) |A|_inf |I|_inf^2']
     ctx.rule = ('random refinement histories (corner, isolated-cell, multi-level marks), 1-D 2..6 cells p 1..3 up to 4 levels, 2-D 2..3 cells/axis '
                 'p 1..2 up to 3 (thorough 4) levels, disparity 1/2/inf, truncate on/off, bdspecs None/[]/faces; forms: mass, Laplace, '
-                'non-symmetric convection with a coefficient field, functional with an input field; symmetric flag on symmetric forms; '
+                'non-symmetric convection with a coefficient field, two functionals with the same input field (f v, f^2 v); per history ONE '
+                'HDiscretization object runs the sequence matrix, functional A, functional B, functional A, matrix (symmetric flag if the '
+                'form is symmetric), then the same HSpace is refined once more and matrix + functional A are assembled again through the '
+                'same object; every step is compared with the model sum of THAT form\'s level assemblies and with the dense oracle; '
                 'affine and (2-D) quarter-annulus geometry; non-trivial = >= 2 levels')
     vfs = {}
     for d in (1, 2):
@@ -234,55 +238,90 @@ def run(ctx):
         if len(ctx.samples) < 5 and L >= 3:
             ctx.sample(desc)
         args = make_args(dim, affine)
-        sp = fmt_space(hs)
-        nb = hs.cell_supp_indices(remove_dirichlet=False)
-        nbr = [hs.ravel_indices(x) for x in nb]
-        nbr_s = plist(nbr, lambda per: plist(per, lambda a: plist(int(i) for i in a)))
         dsp = -1 if disparity == np.inf else int(disparity)
-        fl = forms[dim]
-        name = fl[int(rng.integers(0, len(fl)))]
-        for name in ([name] if quick and it % 3 else fl):
-            if (name, dim) not in vfs:
-                continue
-            vf = vfs[(name, dim)]
-            ctx.count('form=' + name)
-            if name == 'fun':
+        mats = [n for n in forms[dim] if FORMS[n][1] is not None and (n, dim) in vfs]
+        funs = [n for n in forms[dim] if FORMS[n][1] is None and (n, dim) in vfs]
+        if not mats or len(funs) < 2:
+            continue
+        mname = mats[int(rng.integers(0, len(mats)))]
+        fA, fB = funs[0], funs[1]
+        # ONE HDiscretization object per history; sequence: matrix, functional A, functional B (other integrand, same
+        # inputs), functional A again, matrix again (symmetric flag if the form is symmetric); then one more refinement
+        # of the SAME HSpace and matrix + functional A again through the same object (stale caches).
+        sym2 = bool(FORMS[mname][1])
+        steps = [('mat', mname, False), ('fun', fA, None), ('fun', fB, None), ('fun', fA, None), ('mat', mname, sym2)]
+        seq = ['%s:%s%s' % (k, FORMS[n][0], ' symmetric=True' if sy else '') for (k, n, sy) in steps]
+        try:
+            hd = HDiscretization(hs, vfs[(mname, dim)], args)
+            rec = Recorder(hd)
+        except Exception as ex:
+            ctx.violation('hasm:construct', 'HDiscretization raised %s' % type(ex).__name__, desc, False)
+            continue
+        stage = 0
+        while True:
+            snap = hs.copy(); snap._clear_cache()      # frozen, cache-free view of the space for the model inputs and the oracle
+            L = snap.numlevels
+            sp = fmt_space(snap)
+            nbr = [snap.ravel_indices(x) for x in snap.cell_supp_indices(remove_dirichlet=False)]
+            nbr_s = plist(nbr, lambda per: plist(per, lambda a: plist(int(i) for i in a)))
+            lvl_cache = {}
+            for si, (kind, name, sym) in enumerate(steps):
+                d2 = dict(desc); d2['sequence_on_one_HDiscretization'] = seq if stage == 0 else seq + ['refine:%s' % extra] + seq2
+                d2['failing_step'] = si if stage == 0 else len(seq) + 1 + si
+                vf = vfs[(name, dim)]
+                ctx.count('form=' + name)
                 try:
-                    hd = HDiscretization(hs, None, args)
-                    b_impl = np.asarray(hd.assemble_functional(vf))
-                    b_lv = [full_level_vector(hs, vf, args, k) for k in range(L)]
-                except Exception as ex:
-                    if type(ex).__name__ in ('CompileError', 'LinkError', 'DistutilsExecError'):
-                        raise InfraError('compiling the assembler for `%s` failed: %s' % (name, str(ex)[:300]))
-                    b_impl = 'err-' + type(ex).__name__; b_lv = None
-                if b_lv is None:
-                    req.append('hfun bad'); exp.append(b_impl); meta.append(('fun', desc, name, hs, None, affine))
-                else:
-                    req.append('hfun %s %d %s' % (sp, truncate, plist(b_lv, lambda v: plist(v.tolist(), frac))))
-                    exp.append(b_impl); meta.append(('fun', desc, name, hs, b_lv, affine))
-                continue
-            symflags = [False, True] if FORMS[name][1] else [False]
-            A_lv = None
-            for sym in symflags:
-                try:
-                    hd = HDiscretization(hs, vf, args)
-                    rec = Recorder(hd)
-                    A_impl = hd.assemble_matrix(symmetric=sym)
-                    if A_lv is None:
-                        A_lv = [full_level_matrix(hd, hs, k) for k in range(L)]
-                    ta = [None] * L
-                    for (k, rows, bbox) in rec.calls:
-                        ta[k] = rows
-                    e = (ta, A_impl)
+                    if kind == 'fun':
+                        if name not in lvl_cache:
+                            lvl_cache[name] = [full_level_vector(snap, vf, args, k) for k in range(L)]
+                        e = np.asarray(hd.assemble_functional(vf))
+                    else:
+                        rec.calls.clear()
+                        A_impl = hd.assemble_matrix(symmetric=sym)
+                        ta = [None] * L
+                        for (k, rows, bbox) in rec.calls:
+                            if k < L:
+                                ta[k] = rows
+                        if name not in lvl_cache:
+                            hd0 = HDiscretization(snap, vf, args)
+                            lvl_cache[name] = [full_level_matrix(hd0, snap, k) for k in range(L)]
+                        e = (ta, A_impl)
                 except Exception as ex:
                     if type(ex).__name__ in ('CompileError', 'LinkError', 'DistutilsExecError'):
                         raise InfraError('compiling the assembler for `%s` failed: %s' % (name, str(ex)[:300]))
                     e = 'err-%s: %s' % (type(ex).__name__, str(ex)[:200])
-                if A_lv is None:
-                    req.append('hasm bad'); exp.append(e); meta.append(('mat', desc, name, hs, None, affine, sym))
-                    continue
-                req.append('hasm %s %d %d %d %s %s' % (sp, dsp, sym, truncate, nbr_s, plist(A_lv, fmt_mat_in)))
-                exp.append(e); meta.append(('mat', desc, name, hs, A_lv, affine, sym))
+                lv = lvl_cache.get(name)
+                if lv is None:
+                    try:
+                        lv = ([full_level_vector(snap, vf, args, k) for k in range(L)] if kind == 'fun'
+                              else [full_level_matrix(HDiscretization(snap, vf, args), snap, k) for k in range(L)])
+                    except Exception:
+                        lv = None
+                if kind == 'fun':
+                    req.append('hfun bad' if lv is None else 'hfun %s %d %s' % (sp, truncate, plist(lv, lambda v: plist(v.tolist(), frac))))
+                    exp.append(e); meta.append(('fun', d2, name, snap, lv, affine))
+                else:
+                    req.append('hasm bad' if lv is None else 'hasm %s %d %d %d %s %s' % (sp, dsp, sym, truncate, nbr_s, plist(lv, fmt_mat_in)))
+                    exp.append(e); meta.append(('mat', d2, name, snap, lv, affine, sym))
+            if stage == 1:
+                break
+            # one more refinement of the same HSpace (often activating-only: a single cell next to the refined region)
+            lvls = [l for l in range(hs.numlevels) if hs.active_cells(l) and l < maxlev - 1]
+            if not lvls or (quick and it % 4 == 0):
+                break
+            l = int(lvls[int(rng.integers(0, len(lvls)))])
+            cells = sorted(hs.active_cells(l))
+            extra = {l: [cells[int(rng.integers(0, len(cells)))]]}
+            try:
+                hs.refine({l: set(extra[l])})
+            except Exception as ex:
+                ctx.violation('hasm:generate', 'refinement raised %s: %s' % (type(ex).__name__, ex), desc, False)
+                break
+            ctx.count('re-assembled after a further refinement')
+            steps = [('mat', mname, False), ('fun', fA, None)]
+            seq2 = ['%s:%s' % (k, FORMS[n][0]) for (k, n, sy) in steps]
+            stage = 1
+
 
     got = ctx.model('drv_c03', req)
     ndis = 0
@@ -359,6 +398,8 @@ def oracle(hs, m, e):
             want = T.T @ want
             fine = T.T @ fine if fine is not None else None
         mag = max(1.0, float(np.abs(want).max()))
+        if want.shape != np.shape(e):
+            return 'functional: vector of length %s returned, the space has %d dofs' % (np.shape(e), len(want))
         if np.abs(want - e).max() > 256 * EPS * (L + 2) * mag:
             return 'functional: entry differs from the level-wise definition by %.3e' % np.abs(want - e).max()
         if fine is not None and np.abs(fine - e).max() > 1e-11 * mag:
@@ -367,6 +408,8 @@ def oracle(hs, m, e):
     A_lv, affine, sym = m[4], m[5], m[6]
     A = e[1].toarray()
     want, fine = oracle_matrix(hs, A_lv, hs.truncate, affine)
+    if want.shape != A.shape:
+        return 'matrix of shape %s returned, the space has %d dofs' % (A.shape, want.shape[0])
     mag = max(1.0, float(np.abs(want).max()))
     d = np.abs(want - A)
     if d.max() > 256 * EPS * (L + 2) * mag * 8:
